@@ -468,6 +468,11 @@ class Interp(object):
             if v.kind == 'scheme':
                 f = self.find_method(v.attrs['__class__'], attr)
                 if f is not None:
+                    decos = [d.id for d in getattr(f[2], 'decorator_list', []) if isinstance(d, ast.Name)]
+                    if 'staticmethod' in decos:
+                        return FuncRef(f[0], f[2], cls=f[1])
+                    if 'classmethod' in decos:
+                        return FuncRef(f[0], f[2], self_obj=v.attrs['__class__'], cls=f[1])
                     return FuncRef(f[0], f[2], self_obj=v, cls=f[1])
                 c = self.class_attr(v.attrs['__class__'], attr)
                 if c is not None:
